@@ -41,12 +41,12 @@ type c19World struct {
 	pkBytes   [][]byte // encodings of pks, taken before the storm objects were created
 	// long lists for VerifyBLSSignatureManyMessages (more pairing couples than one internal batch holds), in
 	// several windows and both groupings: [window][0] = distinct message per key, [window][1] = 7 messages
-	longPks   []crypto.PublicKey
-	longMsgs  [][]byte
-	longSig   [][2][]byte
-	ecSks     [2]crypto.PrivateKey
-	ecSigs    [2][][]byte
-	bad       []byte
+	longPks  []crypto.PublicKey
+	longMsgs [][]byte
+	longSig  [][2][]byte
+	ecSks    [2]crypto.PrivateKey
+	ecSigs   [2][][]byte
+	bad      []byte
 }
 
 func newC19World(r *rand.Rand) *c19World {
